@@ -330,7 +330,9 @@ def main():
     for r in results:
         s = {k: v for k, v in r.items() if not k.startswith('_')}
         samples.append(s)
-    nontriv = len({r['query'] for r in results if r.get('witness', {}).get('reachable') and r['status'] in ('hold', 'known', 'violation')})
+    # non-trivial = witness twin reachable; a query declared without a twin counts when its own assertions were reached
+    # (CBMC reports at least one reachable harness assertion: props > 0 and the query is not vacuous by construction)
+    nontriv = len({r['query'] for r in results if (r.get('witness', {}).get('reachable') or (not [x for x in qs if x.name == r['query']][0].witness and (r.get('props') or 0) > 0)) and r['status'] in ('hold', 'known', 'violation')})
     ev = {
         'property_id': pid, 'tier': tier, 'seed': seed, 'level': 'model_checking',
         'coverage': {
